@@ -181,6 +181,12 @@ impl Dictionary {
 
         let node = self.header.entries.get(entry_id as usize)?;
         for i in 0..node.sibling {
+            // every word of a tree ends in its own character or word entry: more words than that means
+            // the nodes are shared or repeated, which a damaged file can use to describe billions of them
+            if vec.len() > self.header.chara.len() + self.header.entries.len() {
+                return None;
+            }
+
             let Some(current) = self.get_string(entry_id, i as i32) else {
                 return Some(());
             };
